@@ -15,7 +15,7 @@ TECHNIQUE = 'static analysis: who-may-construct + dominance (validated construct
 CLAUSE = ('DomainGuard values are built only by DomainGuard::new after validate()? succeeded; validate() splits the input it was given, '
           'unmodified, into labels; detect_domain_conflicts inserts matchit_pattern() of every registered guard, with no filter, and any '
           'insert error yields Err; the generated router is initialised from the same matchit_pattern(); the normalising string '
-          'operations applied to a guard equal those the generated code applies to the Host header.')
+          'operations applied to a guard equal those the generated code applies to the Host header. The domain guard string is stored by the runtime builder through identity conversions only.')
 TRUSTED = ['matchit reports every pair of patterns that can match the same path as a Conflict', 'str::split / trim_end_matches semantics']
 
 CR = 'pavexc'
